@@ -226,14 +226,19 @@ func init() {
 		},
 	})
 	eng.Register(&eng.Scenario{
-		Name: "csync-M4", Props: []string{"C01"}, MustFinish: true, ObsNames: stdObs,
-		Doc:   "Mutex.Locker(): two Locker users and a direct Lock user",
+		Name: "csync-M4", Props: []string{"C01", "C02"}, MustFinish: true, ObsNames: stdObs,
+		Doc:   "Mutex.Locker(): two Locker users (sharing one Locker value or with one each, choice) and a direct Lock user",
 		Quick: eng.Bounds{PB: 2}, Thorough: eng.Bounds{PB: 3},
 		Body: func() {
 			var m csync.Mutex
+			shared := m.Locker()
+			useShared := vsched.Choose(2) == 1 // one Locker value shared by both users, or one each
 			for i := 0; i < 2; i++ {
 				T("K", func() {
-					l := m.Locker()
+					l := shared
+					if !useShared {
+						l = m.Locker()
+					}
 					label("Locker.Lock")
 					l.Lock()
 					label("")
@@ -509,15 +514,35 @@ const (
 )
 
 // lateReader: Lock(read) issued while a writer is parked; on acquire that writer must have returned.
-func lateReader(m *csync.RWMutex, g *vsched.Gate) {
+func lateReader(m *csync.RWMutex, g *vsched.Gate) { lateReaderVia(m, g, 0) }
+
+// lateReaderVia: how = 0 Lock(read), 1 TryLock(read) (a refusal is fine), 2 RLocker().Lock()
+func lateReaderVia(m *csync.RWMutex, g *vsched.Gate, how int) {
 	g.Wait()
 	wasParked := vsched.CountParked(lRW) > 0
-	label(lRR)
-	rel, err := m.Lock(context.Background(), false)
-	label("")
-	if err != nil {
-		fail("C02.lock-error", "Lock(bg,read) failed: %v", err)
-		return
+	var rel func()
+	switch how {
+	case 0:
+		label(lRR)
+		r, err := m.Lock(context.Background(), false)
+		label("")
+		if err != nil {
+			fail("C02.lock-error", "Lock(bg,read) failed: %v", err)
+			return
+		}
+		rel = r
+	case 1:
+		r, ok := m.TryLock(false)
+		if !ok {
+			return
+		}
+		rel = r
+	case 2:
+		l := m.RLocker()
+		label(lRR)
+		l.Lock()
+		label("")
+		rel = l.Unlock
 	}
 	acquired(false)
 	if wasParked && vsched.Ctr(cW2Ret) == 0 {
@@ -548,7 +573,7 @@ func init() {
 	bg := context.Background()
 	eng.Register(&eng.Scenario{
 		Name: "csync-L5", Props: []string{"C02", "C01"}, MustFinish: true, ObsNames: stdObs,
-		Doc:   "RWMutex: reader R1 holds behind a gate, writer W (never cancelled) waits, reader R2 is issued once W is parked; then R1 releases so that W and R2 are woken together: R2 may not be granted before W",
+		Doc:   "RWMutex: reader R1 holds behind a gate, writer W (never cancelled) waits, reader R2 (Lock, TryLock or RLocker().Lock, choice) is issued once W is parked; then R1 releases so that W and R2 are woken together: R2 may not be granted before W",
 		Quick: eng.Bounds{PB: 2}, Thorough: eng.Bounds{PB: 4},
 		Body: func() {
 			var m csync.RWMutex
@@ -558,14 +583,15 @@ func init() {
 			acquired(false)
 			T("R1", func() { g1.Wait(); releasing(false); rel() })
 			T("W", func() { steadyWriter(&m) })
-			T("R2", func() { lateReader(&m, g2) })
+			how := vsched.Choose(3)
+			T("R2", func() { lateReaderVia(&m, g2, how) })
 			gF.Wait()
 			finalProbeRW(&m)
 		},
 	})
 	eng.Register(&eng.Scenario{
 		Name: "csync-L6", Props: []string{"C02", "C01"}, MustFinish: true, ObsNames: stdObs,
-		Doc:   "RWMutex: two readers hold behind gates, writer W waits, reader R2 is issued once W is parked; the first holder releases (an unrelated wake-up: W still cannot be granted), later the second: R2 may not be granted before W",
+		Doc:   "RWMutex: two readers hold behind gates, writer W waits, reader R2 (Lock, TryLock or RLocker().Lock, choice) is issued once W is parked; the first holder releases (an unrelated wake-up: W still cannot be granted), later the second: R2 may not be granted before W",
 		Quick: eng.Bounds{PB: 2}, Thorough: eng.Bounds{PB: 3},
 		Body: func() {
 			var m csync.RWMutex
@@ -578,7 +604,8 @@ func init() {
 			T("Ra", func() { ga.Wait(); releasing(false); relA() })
 			T("Rb", func() { gb.Wait(); releasing(false); relB() })
 			T("W", func() { steadyWriter(&m) })
-			T("R2", func() { lateReader(&m, g2) })
+			how := vsched.Choose(3)
+			T("R2", func() { lateReaderVia(&m, g2, how) })
 			gF.Wait()
 			finalProbeRW(&m)
 		},
